@@ -1244,6 +1244,9 @@ pub fn run(ctx: &mut Ctx) {
     }
     // thorough tier: the blocking add (runtime clause "does not hang") witnessed on the real code
     if ctx.thorough() {
+        if std::env::var("C11_ONLY_PROBE").is_ok() {
+            cases.clear(); // development aid: exercise only the probe
+        }
         let probe = wl("hang-probe", 1, 0, false, true, vec![Step::New, Step::Add(1), Step::Commit, Step::Add(2), Step::Commit, Step::Add(10_050), Step::Commit, Step::Drop]);
         let base = json!({"workload": probe.to_json(), "k": Value::Null, "perm": false, "policy": "B"});
         ctx.report.notes.retain(|n| !n.starts_with("op_threads:hang-probe:"));
